@@ -9,6 +9,8 @@ CLAUSES = {
     301: "num_running + num_cancelled + num_ended != tasks created (nothing was flushed)",
     302: "a task is in more than one / in none of running, cancelled, ended",
     303: "a task moved other than running->ended or running->cancelled->ended",
+    304: "a task that is not finished is known to none of the registries (forgotten while running or inside its callbacks)",
+    305: "a forgotten (flushed) task reappeared in a registry",
     310: "end_callback did not run exactly once for a task",
     311: "task did not count as ended when its end_callback ran",
     312: "cancel_callback count wrong: must be 1 iff the coroutine ended by cancellation",
@@ -66,6 +68,55 @@ def tpl_life(size, cb, n1, x2, a2, x3, a3, x4, a4, t, _twin=False):
         w.close(code)
 
 
+ALPHA_F = ("apply", "rel", "fail", "cancel", "cgroup", "call", "cbrel", "flush", "nop")
+NOPF = len(ALPHA_F) - 1
+
+
+def tpl_lifeflush(size, cb, n1, x2, a2, x3, a3, x4, a4, t, _twin=False):
+    """Same lifecycle clauses with flush() in the alphabet: 'created minus forgotten' - a task may only be
+    forgotten once it is finished, and never comes back."""
+    w = World("c03.lifeflush")
+    code = 0
+    try:
+        pool = TaskPool(pool_size=size)
+        it = Interp(w, pool, cbkind=cb)
+        last = {}
+
+        def mon():
+            for i in range(pool._num_started):
+                r, c, e = i in pool._tasks_running, i in pool._tasks_cancelled, i in pool._tasks_ended
+                if r + c + e > 1:
+                    w.fail(302)
+                st = "R" if r else ("C" if c else ("E" if e else "F"))
+                old = last.get(i, "R")
+                if st == "F":
+                    for x in w.W:
+                        if x["id"] == i and not x["task"].done():
+                            w.fail(304)
+                    if not any(x["id"] == i for x in w.W):
+                        w.fail(304)
+                elif old == "F":
+                    w.fail(305)
+                if old != st and st != "F" and not ((old == "R" and st in "CE") or (old == "C" and st == "E")):
+                    w.fail(303)
+                last[i] = st
+        w.monitors.append(mon)
+        try:
+            it.apply(n1)
+            drive(w, it, ALPHA_F, [(NOPF, 0), (x2, a2), (x3, a3), (x4, a4)], t, mon)
+        except Excluded as e:
+            w.excluded = str(e)
+        code = w.err
+        if not code and not w.excluded:
+            code = _final(w, pool, cb)
+        if _twin and not code and not w.excluded:
+            if it.flushes and any(c[0] == "cancel" for c in w.cb) and any(v == "F" for v in last.values()):
+                code = 77
+        return code
+    finally:
+        w.close(code)
+
+
 def _final(w, pool, cb):
     created = pool._num_started
     if pool.num_running or pool.num_cancelled:
@@ -112,8 +163,18 @@ def families(tier):
         pre = base + ["0 <= x3 < %d" % NOP, "a3 >= -1", "x4 == %d" % NOP, "a4 == 0"]
         parts = parts_product(cb=range(4), n1=(2,), x2=range(NOP), x3=(1, 3, 6, 7))
     else:
-        pre = base + ["0 <= x3 <= %d" % NOP, "a3 >= -1", "0 <= x4 <= %d" % NOP, "a4 >= -1"]
-        parts = parts_product(cb=range(4), n1=(1, 2, 3), x2=range(NOP), x3=range(NOP + 1))
-    return [Family(name="life", fn="tpl_life", params=P, pre=pre, parts=parts,
+        pre = base + ["0 <= x3 <= %d" % NOP, "a3 >= -1", "x4 == %d" % NOP, "a4 == 0"]
+        parts = parts_product(cb=range(4), n1=(2, 3), x2=range(NOP))
+    fams = [Family(name="life", fn="tpl_life", params=P, pre=pre, parts=parts,
                    twin_pre=["cb == 1", "n1 == 2", "x2 == 3", "x3 == 1", "x4 == %d" % NOP],
                    twin_args=[2, 1, 2, 3, 0, 1, 1, NOP, 0, 5])]
+    basef = ["size >= 0", "2 <= cb <= 3", "n1 == 2", "0 <= x2 < %d" % NOPF, "a2 >= -1", "0 <= x3 <= %d" % NOPF, "a3 >= -1", "t >= 0"]
+    if not thorough:
+        pref = basef + ["x4 == %d" % NOPF, "a4 == 0", "cb == 3", "t >= 4", "x3 == 1 or x3 == 3 or x3 == 6 or x3 == 7"]
+        partsf = parts_product(x2=range(NOPF))
+    else:
+        pref = basef + ["x4 == 6 or x4 == 7 or x4 == %d" % NOPF, "a4 >= -1", "a4 <= 1", "cb == 3"]
+        partsf = parts_product(x2=range(NOPF), x3=range(NOPF + 1))
+    fams.append(Family(name="lifeflush", fn="tpl_lifeflush", params=P, pre=pref, parts=partsf,
+                       twin_pre=["x2 == 3", "x3 == 7"], twin_args=[2, 3, 2, 3, 0, 7, 0, NOPF, 0, 5]))
+    return fams
